@@ -285,6 +285,12 @@ pub fn run_scenario(job: &Value) -> Value {
             g.datamodel_options.insert(k.clone(), v.as_str().unwrap_or("").to_string());
         }
     }
+    // auxiliary files of the scenario (documents referenced by <invoke src=..>), found through the include path
+    if let Some(Value::Object(fs)) = job.get("files") {
+        for (name, content) in fs {
+            let _ = std::fs::write(format!("{}/{}", dir, name), content.as_str().unwrap_or(""));
+        }
+    }
     let es = executor.state.clone();
     // C17: lock observation (one scenario at a time per process) and steering into a predicted cycle
     let with_locks = job.get("locks").and_then(|x| x.as_bool()).unwrap_or(false);
